@@ -44,6 +44,7 @@ enum I {
     /// length of an array bound by an iteration (a row of a matrix)
     LenVar(&'static str),
     Add(Box<I>, Box<I>),
+    Sub(Box<I>, Box<I>),
     Mul(Box<I>, Box<I>),
 }
 /// model expressions
@@ -101,6 +102,7 @@ impl I {
             I::Len(a) => format!("len({a})"),
             I::LenVar(a) => format!("len({a})"),
             I::Add(a, b) => format!("({} + {})", a.text(), b.text()),
+            I::Sub(a, b) => format!("({} - {})", a.text(), b.text()),
             I::Mul(a, b) => format!("({} * {})", a.text(), b.text()),
         }
     }
@@ -134,6 +136,7 @@ impl I {
                 _ => return Err(format!("{a} is not a bound array")),
             },
             I::Add(a, b) => Val::Num(a.eval(env, d)?.num() + b.eval(env, d)?.num()),
+            I::Sub(a, b) => Val::Num(a.eval(env, d)?.num() - b.eval(env, d)?.num()),
             I::Mul(a, b) => Val::Num(a.eval(env, d)?.num() * b.eval(env, d)?.num()),
         })
     }
@@ -475,6 +478,8 @@ fn templates() -> Vec<Prog> {
     p("inner-row-by-index", add(E::V("z"), agg("sum", vec![It::Range("i", lit(0.0), I::Len("R"), false), It::InRow("v", "R", iv("i"))], mul(I::Add(Box::new(iv("v")), Box::new(I::Mul(Box::new(lit(10.0)), Box::new(iv("i"))))), E::V("z")))), vec![le(E::V("z"), 1.0)], base_decls());
     p("inner-enumerate-row-by-index", add(E::V("z"), agg("sum", vec![It::Range("i", lit(0.0), I::Len("R"), false), It::EnumRow("v", "k", "R", iv("i"))], mul(I::Add(Box::new(iv("v")), Box::new(I::Mul(Box::new(lit(10.0)), Box::new(iv("k"))))), x("x", vec![iv("i")])))), vec![le(E::V("z"), 1.0)], base_decls());
     p("forall-range-len-row-by-index", E::V("z"), vec![Cons { name: None, lhs: add(x("x", vec![iv("k")]), E::V("z")), rel: "<=", rhs: E::K(I::Acc("R", vec![iv("i"), iv("k")])), iters: vec![It::Range("i", lit(0.0), I::Len("R"), false), It::RangeLenRow("k", "R", iv("i"))] }], base_decls());
+    // differences of lengths (negative when A is shorter than B) as constant, coefficient and range end
+    p("length-difference", add(mul(I::Sub(Box::new(I::Len("A")), Box::new(I::Len("B"))), E::V("z")), agg("sum", vec![It::Range("i", I::Sub(Box::new(I::Len("A")), Box::new(I::Len("B"))), lit(2.0), false)], mul(I::Add(Box::new(iv("i")), Box::new(lit(5.0))), E::V("z")))), vec![Cons { name: None, lhs: E::V("z"), rel: "<=", rhs: E::K(I::Sub(Box::new(I::Len("B")), Box::new(I::Len("A")))), iters: vec![] }], base_decls());
     // other aggregates
     p("prod-of-data", mul(I::Lit(1.0), add(E::V("z"), mul(lit(0.0), E::V("z")))), vec![Cons { name: None, lhs: mul(lit(1.0), E::V("z")), rel: "<=", rhs: agg("prod", vec![It::In("v", "A")], E::K(iv("v"))), iters: vec![] }], base_decls());
     p("prod-empty-is-one", E::V("z"), vec![Cons { name: None, lhs: E::V("z"), rel: "<=", rhs: agg("prod", vec![It::Range("i", lit(0.0), lit(0.0), false)], E::K(iv("i"))), iters: vec![] }], base_decls());
@@ -756,7 +761,7 @@ fn check_prog(t: &Prog, dname: &str, d: &Data, l: &mut Local) {
 pub fn run(mut run: Run) -> ! {
     crate::core::silence_panics();
     let n = (templates().len() * data_shapes().len()) as u64;
-    run.rule = "family P: 39 program templates (exclusive/inclusive/negative/descending/empty/length-dependent ranges, array iteration, enumerate, zip of unequal lengths, dependent nested iterators, matrix access, iteration over the rows of a nested array and over each bound row, inner iterators that depend on the outer variable only through an array-access index (v in R[i], enumerate(R[i]), 0..len(R[i]) over a ragged matrix), union/intersection/difference, prod incl. empty, avg/min/max incl. empty ones that must be rejected, for-quantified constraints with indexed names, two iterators, index expressions x_{i+1} and x_{A[i]}, two-index families incl. the collision-prone x_1_23 / x_12_3, graph edges with weights, nodes, neigh_edges, neigh_edges_of, declarations over ranges / array values / edges) x 5 data shapes (3 elements; fractional and repeated values with self-loop and unweighted graph; singletons with isolated node; zeros and shared elements; an empty array with an edgeless graph); family R: every range a..b and a..=b with a, b in -3..=3 as sum iterator, for-quantifier of a constraint, iterator of a declaration, and inner iterator whose start depends on the outer variable (784 programs); family N: every ordered pair (outer, inner) of iterator kinds {range, array, enumerate, zip, weighted edges, union/difference, nodes, dependent range, neigh_edges of the outer node} as nested sum, as nested for-quantifier (row order) and as sum inside a for-quantified row, x the 5 data shapes, with a coefficient that weights every bound variable differently; family N3: every triple of independent iterator kinds nested three deep as sum and as for-quantifier x the 5 data shapes; each pair (program with constructs, reference unrolling) is compiled and the linear models compared row for row in order; distinct = program texts; non-trivial = both compile".into();
+    run.rule = "family P: 40 program templates (exclusive/inclusive/negative/descending/empty/length-dependent ranges, array iteration, enumerate, zip of unequal lengths, dependent nested iterators, matrix access, iteration over the rows of a nested array and over each bound row, inner iterators that depend on the outer variable only through an array-access index (v in R[i], enumerate(R[i]), 0..len(R[i]) over a ragged matrix), union/intersection/difference, prod incl. empty, avg/min/max incl. empty ones that must be rejected, for-quantified constraints with indexed names, two iterators, index expressions x_{i+1} and x_{A[i]}, two-index families incl. the collision-prone x_1_23 / x_12_3, graph edges with weights, nodes, neigh_edges, neigh_edges_of, declarations over ranges / array values / edges) x 5 data shapes (3 elements; fractional and repeated values with self-loop and unweighted graph; singletons with isolated node; zeros and shared elements; an empty array with an edgeless graph); family R: every range a..b and a..=b with a, b in -3..=3 as sum iterator, for-quantifier of a constraint, iterator of a declaration, and inner iterator whose start depends on the outer variable (784 programs); family N: every ordered pair (outer, inner) of iterator kinds {range, array, enumerate, zip, weighted edges, union/difference, nodes, dependent range, neigh_edges of the outer node} as nested sum, as nested for-quantifier (row order) and as sum inside a for-quantified row, x the 5 data shapes, with a coefficient that weights every bound variable differently; family N3: every triple of independent iterator kinds nested three deep as sum and as for-quantifier x the 5 data shapes; each pair (program with constructs, reference unrolling) is compiled and the linear models compared row for row in order; distinct = program texts; non-trivial = both compile".into();
     run.assume("reference unroller implementing the documented iteration semantics (textual order of data, zip stops at the shorter array, enumerate counts from 0, exclusive/inclusive ranges, descending ranges empty, empty sum = 0, empty prod = 1, empty avg/min/max rejected, union keeps first occurrences in order, intersection and difference filter the first array); all data values are small dyadic numbers so coefficient sums are exact and models are compared with zero tolerance");
     run.family("P-template-x-data", n, check);
     run.family("R-range-grid", range_grid_size(), |i, l| {
